@@ -3,7 +3,7 @@
     (same answer for the same operation; malformed envelopes refused, nothing executed).
     Executable only (extracted / vm_compute). *)
 From Coq Require Import List NArith ZArith Bool String.
-From ApiFu Require Import Base.Sexp Transport.EnvelopeModel Transport.JsonText Transport.EnvelopeSpec Transport.WireModel.
+From ApiFu Require Import Base.Sexp Transport.EnvelopeModel Transport.JsonText Transport.EnvelopeSpec Transport.WireModel Transport.FrameText.
 Import ListNotations.
 Open Scope string_scope.
 
@@ -82,30 +82,34 @@ Inductive env := EHttp (e : envelope) | EWs (p : proto) (did_init : bool) (f : o
 Definition dec_pair (s : sexp) : option (bytes * bytes) :=
   match s with SL [SStr k; SStr v] => Some (k, v) | _ => None end.
 
+Definition dec_ws (p di fr : sexp) : option env :=
+  match (if is_sym "gws" p then Some GraphqlWS else if is_sym "tws" p then Some TransportWS else None), as_bool di with
+  | Some p', Some di' =>
+      if is_sym "bad-frame" fr then Some (EWs p' di' None)
+      else match tagged "frame" fr with
+           | Some [ty; id; pl] =>
+               match as_bytes ty, as_bytes id, as_option as_bytes pl with
+               | Some ty', Some id', Some pl' => Some (EWs p' di' (Some {| f_type := ty'; f_id := id'; f_payload := pl' |}))
+               | _, _, _ => None
+               end
+           | _ => None
+           end
+  | _, _ => None
+  end.
+
 Definition dec_env (s : sexp) : option env :=
   match untag s with
-  | Some (t, [m; media; SL ps; b]) =>
+  | Some (t, [a1; a2; a3; a4]) =>
       if String.eqb t "http" then
-        match as_bytes m, as_bytes media, map_opt dec_pair ps, as_bytes b with
-        | Some m', Some md, Some ps', Some b' => Some (EHttp {| e_method := m'; e_media := md; e_url := ps'; e_body := b' |})
-        | _, _, _, _ => None
+        match a3 with
+        | SL ps =>
+            match as_bytes a1, as_bytes a2, map_opt dec_pair ps, as_bytes a4 with
+            | Some m', Some md, Some ps', Some b' => Some (EHttp {| e_method := m'; e_media := md; e_url := ps'; e_body := b' |})
+            | _, _, _, _ => None
+            end
+        | _ => None
         end
-      else None
-  | Some (t, [p; di; fr]) =>
-      if String.eqb t "ws" then
-        match (if is_sym "gws" p then Some GraphqlWS else if is_sym "tws" p then Some TransportWS else None), as_bool di with
-        | Some p', Some di' =>
-            if is_sym "bad-frame" fr then Some (EWs p' di' None)
-            else match tagged "frame" fr with
-                 | Some [ty; id; pl] =>
-                     match as_bytes ty, as_bytes id, as_option as_bytes pl with
-                     | Some ty', Some id', Some pl' => Some (EWs p' di' (Some {| f_type := ty'; f_id := id'; f_payload := pl' |}))
-                     | _, _, _ => None
-                     end
-                 | _ => None
-                 end
-        | _, _ => None
-        end
+      else if String.eqb t "ws" then dec_ws a1 a2 a3
       else None
   | _ => None
   end.
@@ -184,15 +188,23 @@ Definition dec_obs (s : sexp) : option obs :=
 
 Record sub := {
   s_transport : string; s_role : string; s_label : string;
-  s_env : env; s_dec : dobs; s_obs : list obs
+  s_env : env; s_dec : dobs; s_obs : list obs;
+  s_raw : bytes       (* sockets: the frame text *)
 }.
+
+(** the text of the frame that was sent (sockets) *)
+Definition dec_raw (s : sexp) : bytes :=
+  match untag s with
+  | Some (_, [_; _; _; SStr raw]) => raw
+  | _ => []
+  end.
 
 Definition dec_sub (s : sexp) : option sub :=
   match tagged "sub" s with
   | Some [t; r; l; e; d; SL os] =>
       match as_sym t, as_sym r, as_sym l, dec_env e, dec_dobs d, map_opt dec_obs os with
       | Some t', Some r', Some l', Some e', Some d', Some os' =>
-          Some {| s_transport := t'; s_role := r'; s_label := l'; s_env := e'; s_dec := d'; s_obs := os' |}
+          Some {| s_transport := t'; s_role := r'; s_label := l'; s_env := e'; s_dec := d'; s_obs := os'; s_raw := dec_raw e |}
       | _, _, _, _, _, _ => None
       end
   | _ => None
@@ -338,6 +350,46 @@ Definition name_of (s : sub) : string :=
   if String.eqb (s_role s) "canonical" then s_transport s
   else s_transport s ++ "/" ++ s_label s.
 
+(** ** the frame level: the model splits the frame text itself ([FrameText.frame_of_text]); the
+    harness's own split (type / id / raw payload, or "not a message") is a second opinion *)
+Definition frame_eqb (a b : option frame) : bool :=
+  match a, b with
+  | None, None => true
+  | Some x, Some y =>
+      bytes_eqb (f_type x) (f_type y) && bytes_eqb (f_id x) (f_id y) &&
+      match f_payload x, f_payload y with
+      | None, None => true
+      | Some u, Some v => bytes_eqb u v
+      | _, _ => false
+      end
+  | _, _ => false
+  end.
+
+Definition refit (T : ntable) (s : sub) : sub :=
+  match s_env s with
+  | EWs p di _ =>
+      {| s_transport := s_transport s; s_role := s_role s; s_label := s_label s;
+         s_env := EWs p di (frame_of_text (numval_of T) (s_raw s)); s_dec := s_dec s; s_obs := s_obs s; s_raw := s_raw s |}
+  | EHttp _ => s
+  end.
+
+(** the harness's payload text may carry white space around the value; json.RawMessage does not *)
+Definition trim_frame (f : option frame) : option frame :=
+  match f with
+  | Some x => Some {| f_type := f_type x; f_id := f_id x;
+                      f_payload := match f_payload x with
+                                   | Some t => Some (rev (skip_ws (rev (skip_ws t))))
+                                   | None => None
+                                   end |}
+  | None => None
+  end.
+
+Definition frame_split_ok (T : ntable) (s : sub) : bool :=
+  match s_env s with
+  | EWs _ _ hf => frame_eqb (frame_of_text (numval_of T) (s_raw s)) (trim_frame hf)
+  | EHttp _ => true
+  end.
+
 (** ** per-submission checks *)
 Fixpoint first_some {A B} (f : A -> option B) (l : list A) : option B :=
   match l with
@@ -358,7 +410,7 @@ Definition flavour_of (e : env) : flavour := match e with EHttp _ => StdJson | E
 
 Definition oracle_sub (J : jtable) (T : ntable) (s : sub) : option sexp :=
   if negb (forallb (fun t => forallb (fun tok => match num_find T tok with Some _ => true | None => false end)
-                                     (num_tokens (List.length t) t)) (needed_texts (s_env s))) then
+                                     (num_tokens (List.length t) t)) (s_raw s :: needed_texts (s_env s))) then
     Some (v_bad "number-table-incomplete")
   else if negb (forallb (fun t => match tbl_find J t with
                                   | Some p => jparse_eqb (tbl_parse (flavour_of (s_env s)) T t) p
@@ -503,7 +555,9 @@ Definition check (c : sexp) : sexp :=
               | Some vars =>
                   let o := {| o_query := q'; o_vars := vars; o_opname := n' |} in
                   if negb (canonical_complete o is_sub subs) then v_bad "missing-canonical-transport"
+                  else if negb (forallb (frame_split_ok T) subs) then v_bad "frame-split-disagrees"
                   else
+                    let subs := map (refit T) subs in
                     match first_some (oracle_sub J T) subs with
                     | Some v => v
                     | None =>
